@@ -435,9 +435,12 @@ func runC20Canceler(t *verifsim.Tape, cfg engine.Config, o *engine.Outcome) *eng
 	sim.Strategy = verifsim.Strategy(t.Draw("strategy", 4))
 	nStreams := 1 + t.Draw("streams", 6)
 	type st struct {
-		started, finished, refused bool
-		err                        error
+		started, finished atomic.Bool // (tasks are serialised by gates the race detector cannot see: what the driver reads after the run is atomic)
+		err               error
+		long                       bool   // the handler waits for its context to be cancelled
+		handlerSeq                 atomic.Uint64 // logical time at which the handler was entered (registration is complete by then)
 	}
+	var cancelSeq atomic.Uint64 // logical time of the shutdown
 	states := make([]*st, nStreams)
 	var interceptor grpc.StreamServerInterceptor
 	ctx, cancel := context.WithCancel(context.Background())
@@ -450,10 +453,11 @@ func runC20Canceler(t *verifsim.Tape, cfg engine.Config, o *engine.Outcome) *eng
 		for i := 0; i < cancelAt; i++ {
 			verifsim.Yield("boot-wait")
 		}
+		cancelSeq.Store(sim.Seq())
 		cancel()
 	})
 	for i := range states {
-		s := &st{}
+		s := &st{long: t.Draw("long-stream", 2) == 0}
 		states[i] = s
 		sim.Spawn(fmt.Sprintf("stream%d", i), s, func() {
 			for k := 0; !ready.Load() && k < 50; k++ {
@@ -462,8 +466,15 @@ func runC20Canceler(t *verifsim.Tape, cfg engine.Config, o *engine.Outcome) *eng
 			if !ready.Load() {
 				return
 			}
-			s.started = true
+			s.started.Store(true)
 			s.err = interceptor(nil, &fakeStream{context.Background()}, &grpc.StreamServerInfo{FullMethod: "/s/m"}, func(srv any, ss grpc.ServerStream) error {
+				s.handlerSeq.Store(sim.Seq())
+				if s.long {
+					// a stream that stays open until the server tells it to stop (a subscription): it blocks on its
+					// context, other tasks run meanwhile
+					verifsim.Recv(ss.Context().Done())
+					return ss.Context().Err()
+				}
 				// a well-behaved handler: works a little, stops when cancelled
 				for k := 0; k < 1+t.Draw("work", 4); k++ {
 					verifsim.Yield("stream-work")
@@ -473,7 +484,7 @@ func runC20Canceler(t *verifsim.Tape, cfg engine.Config, o *engine.Outcome) *eng
 				}
 				return nil
 			})
-			s.finished = true
+			s.finished.Store(true)
 		})
 	}
 	sim.Run()
@@ -491,8 +502,18 @@ func runC20Canceler(t *verifsim.Tape, cfg engine.Config, o *engine.Outcome) *eng
 		}
 	}
 	for i, s := range states {
-		if s.started && !s.finished && !sim.Deadlock && !sim.StepCapHit && sim.Pollers == 0 {
+		if s.started.Load() && !s.finished.Load() && !sim.Deadlock && !sim.StepCapHit && sim.Pollers == 0 {
 			o.Violate("stream_stuck", "stream_stuck", "stream %d never finished", i)
+		}
+		// a stream whose handler was running BEFORE the shutdown was registered with the canceler before it: the
+		// shutdown reaches it, whatever other streams came and went meanwhile (each stream's registration is its own).
+		// Streams that register while the shutdown is under way are not judged (goa's check-then-store window,
+		// DESIGN section 9 item 12).
+		if hs, cs := s.handlerSeq.Load(), cancelSeq.Load(); s.long && hs != 0 && cs != 0 && hs < cs {
+			o.Features["canceler_long_streams_open_at_shutdown"]++
+			if !s.finished.Load() && !sim.StepCapHit {
+				o.Violate("shutdown_missed_stream", "shutdown_missed_stream", "stream %d was open (handler entered at logical time %d) when the server context was cancelled (at %d) and was never cancelled: its registration with the canceler was lost to another stream's", i, hs, cs)
+			}
 		}
 	}
 	o.Features["canceler_runs"]++
